@@ -1,6 +1,6 @@
 (* C35 — property theorems only: each closed by [exact lemma], followed by Print Assumptions. *)
 From Coq Require Import List NArith ZArith Bool.
-From Verif Require Import C29.Model C29.Proof C35.Model C35.Proof C35.Subst.
+From Verif Require Import C29.Model C29.Proof C35.Model C35.Proof C35.Subst C35.FailModel C35.FailProof.
 Import ListNotations.
 
 (* GenericKey (after fix C35-1) determines the argument list: for every pair of (vals, types) vectors of the lengths
@@ -98,3 +98,69 @@ Example C35_ex_subst :
   resolve 8 ex_ds false [] (subst (tinject [1%N; 2%N] [TyName 10; TyInst 0 [TyName 10; TyName 11]]) body) s
   /\ resolve 8 ex_ds false [] (subst (tinject [1%N; 2%N] [TyName 10; TyInst 0 [TyName 10; TyName 11]]) body) s <> None.
 Proof. vm_compute. split; [reflexivity|discriminate]. Qed.
+
+(* ---------------- failing instantiations and late declarations (FailModel.v: instantiateE / resolveE return
+   [Ok s v] or [Err s], the state of the instance caches when the compilation panicked, after the deferred
+   delete(Instances, key) of every instantiation in progress) ---------------- *)
+
+(* a failed instantiation is rolled back: whatever compiling the body did (ANY rec/recx, i.e. any body, any nesting of
+   further instantiations, any error), the key of the failed (generic, arguments) is absent from the cache of the
+   generic afterwards, as it was before the attempt - no half-built instance stays behind *)
+Theorem C35_failed_instantiation_rolled_back : forall rec recx ds g cargs s s',
+  lookup s g (key_of cargs) = None ->
+  instantiateE rec recx ds g cargs s = Err s' ->
+  lookup s' g (key_of cargs) = None.
+Proof. exact instantiateE_err_rolled_back. Qed.
+Print Assumptions C35_failed_instantiation_rolled_back.
+
+(* hence the next attempt with identical arguments (e.g. after the missing name was declared) does not return a
+   leftover: it allocates a fresh instance and compiles the body again *)
+Theorem C35_failed_instantiation_retry_recompiles : forall rec recx ds g d cargs s s1,
+  nth_error ds g = Some d -> dkind d = 0%N -> length (dparams d) = length cargs ->
+  lookup s g (key_of cargs) = None ->
+  instantiateE rec recx ds g cargs s = Err s1 ->
+  forall rec' recx', instantiateE rec' recx' ds g cargs s1 =
+    let '(s0, id) := alloc s1 g (key_of cargs) in
+    let v := TNamed (N.of_nat id) in
+    match rec' (inject (dparams d) cargs) (dbody d) (store s0 g (key_of cargs) v) with
+    | Ok s2 _ => Ok s2 v
+    | Err s2 => Err (remove s2 g (key_of cargs))
+    end.
+Proof. exact instantiateE_retry_recompiles. Qed.
+Print Assumptions C35_failed_instantiation_retry_recompiles.
+
+(* a compilation that fails - at any depth of nested instantiations, for every expression, scope and set of
+   declarations evaluated so far - removes or changes NO instance of a generic type or function that was cached before
+   it started (instances completed before the error also stay) *)
+Theorem C35_failure_keeps_instances : forall ds av fuel xp sc t s, length (caches s) = length ds ->
+  keeps ds s (state_of (resolveE fuel ds av xp sc t s)).
+Proof. exact resolveE_keeps. Qed.
+Print Assumptions C35_failure_keeps_instances.
+
+(* memoisation over histories that contain failed evaluations and late declarations *)
+Theorem C35_memo_across_failures : forall ds fuel g d k v s ops av,
+  length (caches s) = length ds -> nth_error ds g = Some d -> dkind d <> 1%N ->
+  lookup s g k = Some v -> lookup (fst (runE fuel ds ops av s)) g k = Some v.
+Proof. exact memo_across_failures. Qed.
+Print Assumptions C35_memo_across_failures.
+
+(* non-vacuity: generic 0: type Hold#[T] struct{V T; L LateRec};  1: the plain type LateRec, declared LATE;
+   generic 2: func Use#[T](x T) { ... Hold#[T] ... LateRec ... }.  Hold#[int] fails, Use#[int] fails inside the nested
+   Hold#[int] (both keys removed again: all caches empty), LateRec is declared, Use#[int] now compiles (and leaves
+   Hold#[int] cached), Hold#[int] is the cached object on both later probes *)
+Definition ex_ds_late : list decl :=
+  [ mkDecl 0 [1%N] (TyStruct [(0%N, TyName 1); (1%N, TyInst 1 [])]) [];
+    mkDecl 3 [] (TyName 0) [];
+    mkDecl 2 [1%N] (TyFunc [TyName 1] []) [TyInst 0 [TyName 1]; TyInst 1 []] ].
+Definition ex_ops_late : list opE :=
+  [ EEval [TyInst 0 [TyName 5]] true; EEval [TyInst 2 [TyName 5]] false; EDeclare 1;
+    EEval [TyInst 2 [TyName 5]] false; EEval [TyInst 0 [TyName 5]] true; EEval [TyInst 0 [TyName 5]] true ].
+Example C35_ex_fail_then_succeed :
+  observeE 64 ex_ds_late ex_ops_late [true; false; true] (empty ex_ds_late) 0%Z [] =
+  [mkObs [0;0;0]%N (-3); mkObs [0;0;0]%N (-3); mkObs [0;0;0]%N (-4); mkObs [1;0;1]%N (-1); mkObs [1;0;1]%N 4; mkObs [1;0;1]%N 4]%Z.
+Proof. vm_compute. reflexivity. Qed.
+Example C35_ex_rolled_back_hyp :
+  exists s', instantiateE (resolveE 8 ex_ds_late [true; false; true] false) (resolveE 8 ex_ds_late [true; false; true] true)
+               ex_ds_late 0 [AType (TBasic 5)] (empty ex_ds_late) = Err s'
+             /\ lookup (empty ex_ds_late) 0 (key_of [AType (TBasic 5)]) = None.
+Proof. eexists. vm_compute. split; reflexivity. Qed.
